@@ -4,7 +4,7 @@
 tier="${1:-quick}"; [ $# -gt 0 ] && shift
 out=/verif/seeded/MATRIX.tsv
 if [ $# -eq 0 ]; then
-  set -- $(ls -d /verif/seeded/C* | xargs -n1 basename)
+  set -- $(ls -d /verif/seeded/C[0-9]* | xargs -n1 basename)
   echo "seed	property	tier	exit	signature	wall_s" > $out
 fi
 for s in "$@"; do
